@@ -10,9 +10,9 @@ import impl_optimise as IO
 
 PID = "C20"
 THEOREMS = ["PauLie.C20.C20_move_closure", "PauLie.C20.C20_iterate_moves", "PauLie.C20.C20_run_preserves",
-            "PauLie.C20.C20_explore_covers_run",
+            "PauLie.C20.C20_explore_covers_run", "PauLie.Tie.edges_tie",
             "PauLie.Closure.closureList_sound_complete", "PauLie.Closure.closureList_exhausted", "PauLie.Closure.clo_contract"]
-IMPORTS = ["PauLieVerif.Properties.C20", "PauLieVerif.Proofs.Closure"]
+IMPORTS = ["PauLieVerif.Properties.C20", "PauLieVerif.Proofs.Closure", "PauLieVerif.Proofs.TieApps"]
 
 def su_gens(rng, n, kind=None):
     """a generating set of su(2^n): random strings until the closure is everything, or a 2-local universal family,
